@@ -56,6 +56,13 @@ func c09Step(state, in, out any) (bool, any) {
 		return !o.Err && o.Val == v, v
 	case "swap-fail":
 		return o.Err, st
+	case "reset-seq":
+		// Arg even: the list (1 2 Arg/2); odd: the vector [1 2 Arg/2]: equal under = to the other kind, different values
+		v := fmt.Sprintf("(1 2 %d)", i.Arg/2)
+		if i.Arg%2 == 1 {
+			v = fmt.Sprintf("[1 2 %d]", i.Arg/2)
+		}
+		return !o.Err && o.Val == v, v
 	}
 	return false, st
 }
@@ -106,6 +113,11 @@ func c09Form(in c09In) string {
 		return fmt.Sprintf("(swap! %s conj %d)", in.Atom, in.Arg)
 	case "swap-fail":
 		return fmt.Sprintf("(swap! %s (fn (n) (throw \"update-failed-%d\")))", in.Atom, in.Arg)
+	case "reset-seq":
+		if in.Arg%2 == 1 {
+			return fmt.Sprintf("(reset! %s [1 2 %d])", in.Atom, in.Arg/2)
+		}
+		return fmt.Sprintf("(reset! %s (list 1 2 %d))", in.Atom, in.Arg/2)
 	}
 	return "nil"
 }
@@ -143,6 +155,12 @@ func c09History(c *fw.Ctx, r *rand.Rand, id string, parked bool) {
 			initial[a] = "[]"
 			atoms = append(atoms, a)
 		}
+		// an atom holding sequences: reset! alternates between lists and vectors that are = to each other
+		if r.Intn(2) == 0 {
+			hx.EvalText(context.Background(), "(def q0 (atom (list 1 2 0)))", env)
+			initial["q0"] = "(1 2 0)"
+			atoms = append(atoms, "q0")
+		}
 		nClients := 3 + r.Intn(6)
 		clients := make([]c09Client, nClients)
 		for ci := range clients {
@@ -151,7 +169,16 @@ func c09History(c *fw.Ctx, r *rand.Rand, id string, parked bool) {
 				a := atoms[r.Intn(len(atoms))]
 				uniq := (ci+1)*1000000 + k
 				var in c09In
-				if a[0] == 'c' {
+				if a[0] == 'q' {
+					switch r.Intn(4) {
+					case 0:
+						in = c09In{a, "deref", 0}
+					case 1:
+						in = c09In{a, "print", 0}
+					default:
+						in = c09In{a, "reset-seq", r.Intn(4)} // few distinct values: equal-but-different-kind resets collide
+					}
+				} else if a[0] == 'c' {
 					switch r.Intn(10) {
 					case 0, 1, 2:
 						in = c09In{a, "deref", 0}
